@@ -16,7 +16,8 @@ RULE = ('older tree (plain mappings/lists/scalars, optionally !call nodes as ent
         'priorities -> exact content, pruned !call nodes never run; (b) same with !force older leaves or a !weak focus -> exactly the strictly '
         'higher-priority entries survive; (c) !merge focus on mapping/list -> key-/index-wise, half of them shaped after the older subtree; '
         '(d) !clear / value-less !del; (e) a list with !force elements replaced by a newer list -> protected elements and un-outranked newer '
-        'elements all present (validity predicate; open finding list-element-survivor-shift). In (a) and (c) the focus may also meet an older '
+        'elements all present (validity predicate; open finding list-element-survivor-shift); (f) several elements of one list removed by '
+        'value-less !del and replaced in one document (mapping with indices from either end, or !merge list) -> simultaneous edit. In (a) and (c) the focus may also meet an older '
         'list or scalar. '
         'non-trivial = focus depth >=1, or a protected survivor, or a key coinciding with an ancestor key; distinct = hash of the case')
 BUDGET = {'quick': (4, 1500), 'thorough': (16, 10000)}
@@ -138,7 +139,7 @@ def _wrap(path, node, extras=None):
 
 @st.composite
 def _case(draw):
-    mode = draw(st.sampled_from(['a', 'a', 'a', 'b', 'b', 'b', 'c', 'c', 'd', 'd', 'e']))
+    mode = draw(st.sampled_from(['a', 'a', 'a', 'b', 'b', 'b', 'c', 'c', 'd', 'd', 'e', 'f']))
     calls = [0] if mode == 'a' else None
     older = draw(_older(0, calls, protect=(mode == 'b')))
     path = draw(_focus_path(older, end_any=mode in ('a', 'c')))
@@ -157,6 +158,21 @@ def _case(draw):
         if big:
             path = big[draw(st.integers(0, len(big) - 1))]
     case = {'mode': mode, 'older': older, 'path': path}
+    if mode == 'f':
+        # several elements of one list removed (value-less !del) and replaced in one document: the keys address the list as it was
+        n_old = draw(st.integers(2, 5))
+        case['old_list'] = [[i + 1, 0] for i in range(n_old)]
+        form = draw(st.sampled_from(['map', 'map', 'mergelist']))
+        if form == 'map':
+            idx = draw(st.lists(st.integers(0, n_old - 1), min_size=2, max_size=4, unique=True))
+            idx = draw(st.permutations(idx))
+            case['edits'] = [[i - n_old if draw(st.integers(0, 3)) == 0 else i, 'del' if draw(st.integers(0, 2)) else 20 + i] for i in idx]
+        else:
+            m = draw(st.integers(2, n_old + 1))
+            # (a value-less !del where the older list has no element is a '!del at a missing key': not stated, not generated)
+            case['edits'] = [[i, 'del' if i < n_old and draw(st.booleans()) else 20 + i] for i in range(m)]
+        case['form'] = form
+        return case
     if mode == 'e':
         # a list of distinct scalars, some elements !force, replaced by a newer list (directly, or inside a !del mapping)
         n_old = draw(st.integers(1, 4))
@@ -444,6 +460,8 @@ def run_case(case):
     nontrivial = len(path) >= 1
     if mode == 'e':
         return _run_e(case, labels)
+    if mode == 'f':
+        return _run_f(case, labels)
     if mode in ('a', 'b', 'c'):
         focus = case['focus']
         met = _get(older, path)['t']
@@ -587,6 +605,46 @@ def _shift_model(old_list, new_list, via):
     return out
 
 
+def _run_f(case, labels):
+    import copy
+    path, old_list, edits, form = case['path'], [v for v, _ in case['old_list']], case['edits'], case['form']
+    older = copy.deepcopy(case['older'])
+    holder = _get(older, path)
+    if holder['t'] != 'map' or _is_call(holder):
+        return Outcome(labels=['f-skip-path-ends-on-non-mapping'])
+    holder['items'] = [it for it in holder['items'] if it[0] != 'L'] + [['L', tdoc.sq([tdoc.sc(v) for v in old_list], flow=True)]]
+
+    def val(e):
+        return tdoc.empty(**{'del': True}) if e == 'del' else tdoc.sc(e)
+    if form == 'map':
+        node = tdoc.mp([(i, val(e)) for i, e in edits], flow=False)
+    else:
+        node = tdoc.sq([val(e) for _, e in edits], flow=False, **{'del': False})
+    newer = _wrap(path + ['L'], node)
+    t_old, t_new = tdoc.render(older), tdoc.render(newer)
+    src = f'\nolder:\n{t_old}\nnewer:\n{t_new}'
+    status, got = _build([t_old, t_new])
+    n = len(old_list)
+    result = list(old_list) + [None] * max(0, len(edits) - n)
+    gone = set()
+    for i, e in edits:
+        j = i if i >= 0 else n + i
+        if e == 'del':
+            gone.add(j)
+        else:
+            result[j] = e
+    expected_list = [v for j, v in enumerate(result) if j not in gone and not (j >= n and v is None)]
+    expected = replace_at(ev(older), path + ['L'], expected_list)
+    labels.add('f-' + form)
+    labels.add('f-removals=%d' % min(3, sum(1 for _, e in edits if e == 'del')))
+    if status != 'ok':
+        raise Violation(f'C04f: build failed: {type(got).__name__}: {got}{src}')
+    if O.canon_unordered(got) != O.canon_unordered(expected):
+        raise Violation(f'C04f: elements of the list {old_list} edited in one document ({edits}: value-less !del removes, a value replaces; the '
+                        f'indices address the list as it was): expected {expected_list!r}, got {got!r}{src}')
+    return Outcome(nontrivial=sum(1 for _, e in edits if e == 'del') >= 2 or any(e == 'del' for _, e in edits[:-1]), labels=sorted(labels))
+
+
 def _run_e(case, labels):
     import copy
     from .. import probes
@@ -644,6 +702,8 @@ def sample_repr(case):
     out = {'mode': case['mode'], 'path': case['path'], 'older': tdoc.render(case['older'])}
     if case['mode'] == 'e':
         out.update(old_list=case['old_list'], new_list=case['new_list'], via=case['via'])
+    if case['mode'] == 'f':
+        out.update(old_list=case['old_list'], edits=case['edits'], form=case['form'])
     if 'focus' in case:
         out['newer'] = tdoc.render(_wrap(case['path'], case['focus']))
     return out
